@@ -4,7 +4,6 @@ import (
 	"fmt"
 	"log"
 	"net"
-	"os"
 	"path/filepath"
 	"strings"
 	"time"
@@ -164,7 +163,13 @@ func RecoverNode(dataDir string, extensions []string, logger *log.Logger, logs r
 
 	// Get a path to a temporary file to use for a temporary database.
 	tmpDBPath := filepath.Join(dataDir, "recovery.db")
-	defer os.Remove(tmpDBPath)
+
+	// The temporary database runs in WAL mode, so it is more than one file. Remove anything
+	// left behind by an earlier recovery, and clean up all of it afterwards.
+	if err := sql.RemoveFiles(tmpDBPath); err != nil {
+		return fmt.Errorf("failed to remove temporary database files: %s", err)
+	}
+	defer sql.RemoveFiles(tmpDBPath)
 
 	// Attempt to restore any latest snapshot.
 	var (
